@@ -29,7 +29,6 @@ func c07Local(entry string, n []uint64, f []string) string {
 		toks := []string{c07TB(out), c07U(uint64(m.Op)), c07U(uint64(m.HType)), c07U(uint64(m.HLen)), c07U(uint64(m.Hops)),
 			c07U(uint64(m.XID)), c07U(uint64(m.Secs)), c07U(uint64(m.Flags)), c07TB(m.ClientIP), c07TB(m.YourIP),
 			c07TB(m.ServerIP), c07TB(m.GatewayIP), c07TB(m.ClientHWAddr), c07TB(m.ServerName[:]), c07TB(m.BootFileName[:]),
-			"1",
 			c07U(uint64(o.MessageType)), c07TBN(o.ServerID), c07TBN(o.RequestedIP), c07TB([]byte(o.Hostname)),
 			c07TBN(o.ClientID), c07U(uint64(o.LeaseTime)), c07TBN(o.SubnetMask), c07TBN(o.Router), c07U(uint64(len(o.DNS)))}
 		for _, d := range o.DNS {
